@@ -188,7 +188,7 @@ func runCheck(args []string) int {
 			knownBy[k.Obligation] = k
 		}
 	}
-	total, discharged := 0, 0
+	total, discharged, knownObl := 0, 0, 0
 	var failed []*Obligation
 	var vacuous []string
 	classCount := map[string]int{}
@@ -210,6 +210,12 @@ func runCheck(args []string) int {
 			if ob.status() == "unsat" {
 				vacuous = append(vacuous, name)
 			}
+			continue
+		}
+		if _, isKnown := knownBy[ob.Name]; isKnown && ob.status() != "unsat" {
+			// a recorded genuine defect: reported as KNOWN-FINDING, not part of the proved set
+			failed = append(failed, ob)
+			knownObl++
 			continue
 		}
 		total++
@@ -357,11 +363,12 @@ func runCheck(args []string) int {
 		"out_of_reach":             unsup,
 		"contract_drift":           drift,
 		"known_findings_active":    knownHit,
-		"bounded_standins":         boundedRes,
-		"spec_axioms":              axioms,
-		"contract_files":           e.cs.Files,
-		"floats_as_reals":          true,
-		"vacuity_canaries_proved":  vacuous,
+		"known_finding_obligations_excluded_from_the_proved_set": knownObl,
+		"bounded_standins":        boundedRes,
+		"spec_axioms":             axioms,
+		"contract_files":          e.cs.Files,
+		"floats_as_reals":         true,
+		"vacuity_canaries_proved": vacuous,
 	}
 	ev := map[string]interface{}{
 		"property_id": id,
